@@ -474,8 +474,10 @@ func (inv *c19Inv) candidates(refs map[string]*c19Ref, t string) []*c19Ref {
 
 // outDir is the output directory as the kernel resolves it in the pre-state: -o may name a
 // symbolic link to the directory.
-func (inv *c19Inv) outDir() string {
-	p := absJoin(inv.Spec.Cwd, inv.OutArg)
+func (inv *c19Inv) outDir() string { return inv.resolveLinks(absJoin(inv.Spec.Cwd, inv.OutArg)) }
+
+// resolveLinks follows the symbolic links of the pre-state at the last component of p.
+func (inv *c19Inv) resolveLinks(p string) string {
 	for hop := 0; hop < 8; hop++ {
 		next := ""
 		for _, f := range inv.Spec.Files {
@@ -1218,7 +1220,7 @@ func c19Probe(r *Run, inv *c19Inv, refs map[string]*c19Ref) (string, string) {
 // read; within a call every stat of a path is counted, and a stat that was made to fail becomes
 // the path-keyed fault (path, n-th stat of that path in this call).
 func statFaultGroups(inv *c19Inv, res *TshResult) [][]*simrt.Fault {
-	in := absJoin(inv.Spec.Cwd, inv.InArg)
+	in := inv.resolveLinks(absJoin(inv.Spec.Cwd, inv.InArg)) // (the journal names files by their resolved paths)
 	groups := [][]*simrt.Fault{}
 	var cur []*simrt.Fault
 	counts := map[string]int{}
@@ -1232,7 +1234,7 @@ func statFaultGroups(inv *c19Inv, res *TshResult) [][]*simrt.Fault {
 	for _, ev := range res.Journal {
 		switch ev.Op {
 		case simrt.OpRead:
-			if path.Clean(ev.Path) == in || path.Base(ev.Path) == path.Base(in) && !inCall {
+			if path.Clean(ev.Path) == in {
 				flush()
 				counts = map[string]int{}
 				inCall = true
